@@ -6,6 +6,7 @@ import os
 from path import Path
 
 from . import clean_common as cc
+from . import clean_own as co
 from . import common
 from .wfutil import WF
 
@@ -272,12 +273,23 @@ def _e3_part(ctx, n):
         ctx.count("e3_nested_gen_" + key, v)
 
 
+def _own_part(ctx, scale, suffix=""):
+    """Trees with symbolic links (harness/clean_own.py), implementation only: every queued / orphaned output that
+    still is exactly what the step left there is gone after the cleanup -- on hand-made queues, after
+    Builder.finalize on projects grown through the Workflow API, and through the real serve()."""
+    co.run_families(ctx, 40 * scale, 20 * scale, 0, c06=False, c07=True, suffix=suffix)
+    if cc.e3_available():
+        co.run_e3_replace(ctx, min(52, 8 * scale), c06=False, c07=True, suffix=suffix)
+
+
 def oracle(ctx):
+    _own_part(ctx, ctx.scale(1, 10))
     _run_oracle(ctx, ctx.scale(30, 500))
     _e3_part(ctx, ctx.scale(12, 150))
 
 
 def search(ctx):
+    _own_part(ctx, 10, suffix=":search")
     _run_oracle(ctx, 300, suffix=":search")
 
 
